@@ -100,12 +100,11 @@ CLAIMED.update({
    technique='Coq invariant and refinement proofs (byte-level FAT set/get frame; chain-level truncate/write/close/unlink well-formedness over any history; byte-level refinement of one open file to a byte array; directory-entry update/delete) + oracle by the extracted Coq structural check after every operation',
    text='Theorems: stage T on bytes (a stored entry reads back, every other entry incl. the FAT12 nibble neighbour and FAT32 top bits untouched, all copies '
         'identical); stage F on chains (truncate shrink/grow/zero, write, close, unlink keep every file well-formed: chain in range, linked, terminated, '
-        'duplicate-free, ceil(size/cs) long; other files and foreign entries untouched; ANY operation sequence on any family of files); stage D on bytes (ANY history of seek / write / truncate / read on one handle, failed steps included, refines a plain byte array; holes read as zeros whatever the clusters held; clusters outside the chain untouched); stage E on directory records (update in place rewrites one record, delete removes exactly one group, others byte-identical). Path-level '
-        'composition is not a theorem: after EVERY operation of seeded histories (all ten operations, all FAT types, '
+        'duplicate-free, ceil(size/cs) long; other files and foreign entries untouched; ANY operation sequence on any family of files); stage D on bytes (ANY history of seek / write / truncate / read on one handle, failed steps included, refines a plain byte array; holes read as zeros whatever the clusters held; clusters outside the chain untouched); stage E on directory records (update in place rewrites one record, delete removes exactly one group, others byte-identical); stage P on the whole volume at record level (FAT values + every directory s decoded entries, dead slots, dot entries): every path operation -- open(w/x/a/r+)+action+close, touch, unlink, mkdir, rmdir, rename in all branches -- with every outcome preserves VolInv (all chains well-formed and pairwise disjoint, no lost cluster, sizes match chains, empty files own no cluster, dot entries right, names and aliases unique, directory graph a tree) and, unless it runs out of space, has the outcome and tree of the plain in-memory model; ANY history. The layers are tied to each other and to the code by correspondence, and after EVERY operation of seeded histories (all ten operations, all FAT types, '
         'empty/populated/fragmented volumes) the extracted Coq reader must report a clean complete structural check and the same tree as a plain in-memory '
         'model, through the same instance, a fresh instance and the spec reader, with bytes outside the partition unchanged.',
-   note=FAT_NOTE + 'PARTIAL: history_refines is proved per layer (FAT bytes, chains, file bytes, directory records); the composition of the layers by the path operations (rename, mkdir, ...) is oracle/correspondence, incl. scripted corner-case histories and multi-step handle sessions. '
-        'Found and fixed: truncate shrink slice, growth from empty map, chain leak in unlink/rmdir/rename, mkdir not zeroing, rename onto itself, rename of directories, lost case flags.',
+   note=FAT_NOTE + 'history_refines is proved per layer (FAT bytes, chains, file bytes, directory records) and at record level for the path operations over the whole volume; what remains PARTIAL is that the record-level state is linked to the image bytes by the layer theorems plus correspondence (every FAT value, directory slot and cluster number compared after every operation), not by one end-to-end theorem; guards of stage P: path components free of ~, the created name and alias collide with nothing (FatNames alias_unique is the lower-layer theorem). '
+        'Found and fixed: truncate shrink slice, growth from empty map, chain leak in unlink/rmdir/rename, mkdir not zeroing, rename onto itself, rename of directories, lost case flags, a directory renamed into itself through its alias / a name equal after upper-casing, an alias equal to the upper-cased long name of another entry.',
    design='§7 C04'),
  'C06': dict(
    technique='Coq proof over the AST-regenerated mutation skeleton (no store reachable from serving entry points) + regenerated read-only defaults + image hashes under a real server',
@@ -125,7 +124,7 @@ CLAIMED.update({
         'free-cluster / free-root-slot count from 0 to need, FAT12/16/32, with/without FSInfo, FATs larger than the data area: outcome ok or ENOSPC only, '
         'extracted structural check clean, bystanders intact, prefix / all-or-nothing, usable again after freeing.',
    note=FAT_NOTE + 'Sub-directory growth through FatFile.write is oracle-level. Observation: cluster 2 is never allocated on FAT12/16; a full root directory needs one spare slot for the terminator. '
-        'Found and fixed: allocation beyond the data area, duplicate clusters from Fat32Table.free.',
+        'Found and fixed: allocation beyond the data area, duplicate clusters from Fat32Table.free, mkdir leaking its cluster when the entry cannot be stored.',
    design='§7 C10'),
  'C11': dict(
    technique='Coq proofs over a model of _get_names/_get_unique_sfn/_prefix_entries incl. round trip through the independent spec decoder + differential check + on-disk oracle',
